@@ -638,3 +638,123 @@ Proof.
   exists (mkCfg true false false false false false false false), [EExitKbd 0%Z].
   vm_compute. auto.
 Qed.
+
+(** * The child is reaped -- unless a worker died first (F-C08d) *)
+
+Definition no_exc_ev (e : ev) : bool := match e with EExc _ _ => false | _ => true end.
+
+Lemma run_joins_fields c todo s cur ec :
+  let r := fst (run_joins c s todo cur ec) in
+  s_reaped r = s_reaped (fst s) /\ any_dead r = any_dead (fst s) /\ s_proc r = s_proc (fst s).
+Proof.
+  pose proof (run_joins_result c todo s cur ec) as J.
+  remember (fst (run_joins c s todo cur ec)) as r eqn:Er. clear Er.
+  inversion J; subst r; cbn; auto.
+Qed.
+
+Lemma leave_wait_fields c s ec :
+  let r := fst (leave_wait c s ec) in
+  s_reaped r = s_reaped (fst s) /\ (any_dead (fst s) = false -> any_dead r = false).
+Proof.
+  unfold leave_wait.
+  match goal with |- context [run_joins c ?a ?b None ec] =>
+    destruct (run_joins_fields c b a None ec) as (A & B & _) end.
+  cbn [fst] in *. split; [rewrite A; reflexivity|].
+  intros D. rewrite B. unfold any_dead in *. cbn.
+  destruct (s_out (fst s)), (s_in (fst s)), (s_err (fst s)); cbn in *; congruence.
+Qed.
+
+Lemma apply_ev_noexc c k n e :
+  no_exc_ev e = true -> any_dead k = false ->
+  any_dead (fst (apply_ev c (k, n) e)) = false /\
+  (s_reaped k = true -> s_reaped (fst (apply_ev c (k, n) e)) = true) /\
+  (s_pc k = PWait -> s_pc (fst (apply_ev c (k, n) e)) <> PWait -> s_reaped (fst (apply_ev c (k, n) e)) = true).
+Proof.
+  intros Sc D. unfold apply_ev. cbn [fst snd]. destruct (negb (running k)); [repeat split; auto; congruence|].
+  destruct e as [w|w|code|code| |w x|]; try discriminate Sc; cbn [fst];
+  repeat match goal with
+  | |- context [match ?w with WOut => _ | WIn => _ | WErr => _ end] => is_var w; destruct w
+  | |- context [if is_run ?x then _ else _] => destruct (is_run x)
+  | |- context [match s_proc k with _ => _ end] => destruct (s_proc k)
+  | |- context [match s_timer k with _ => _ end] => destruct (s_timer k)
+  | |- context [match s_pc k with _ => _ end] => destruct (s_pc k) eqn:?
+  end; cbn [fst];
+  try (repeat split; auto; try (apply any_dead_wset_done; exact D); intros; congruence);
+  try (match goal with |- context [leave_wait c ?s0 ?ec] =>
+         destruct (leave_wait_fields c s0 ec) as (A & B) end; cbn [fst] in *;
+       repeat split; [apply B; exact D | intros; rewrite A; reflexivity | intros; rewrite A; reflexivity]);
+  try (repeat split; auto; intros; try congruence; cbn in *; congruence).
+Qed.
+
+Definition RInv (k : ctl) : Prop := any_dead k = false /\ (s_pc k <> PWait -> s_reaped k = true).
+
+Lemma rinv_step c k n e : no_exc_ev e = true -> RInv k -> RInv (fst (step c (k, n) e)).
+Proof.
+  intros Sc (D & R). destruct (apply_ev_noexc c k n e Sc D) as (D' & Mono & OnLeave).
+  unfold step. set (k' := fst (apply_ev c (k, n) e)) in *.
+  assert (R' : s_pc k' <> PWait -> s_reaped k' = true).
+  { intros H. destruct (s_pc k) eqn:P.
+    - apply OnLeave; auto.
+    - apply Mono. apply R. discriminate.
+    - apply Mono. apply R. discriminate.
+    - apply Mono. apply R. discriminate. }
+  unfold advance. cbn [fst snd]. destruct (s_pc k') as [|todo cur ec|o|] eqn:P'.
+  - destruct (s_proc k') eqn:Pr.
+    + match goal with |- RInv (fst (leave_wait c ?s0 false)) =>
+        destruct (leave_wait_fields c s0 false) as (A & B) end. cbn [fst] in *.
+      split; [apply B; exact D' | intros _; rewrite A; reflexivity].
+    + rewrite D'. cbn [fst]. split; [exact D' | intros H; elim H; exact P'].
+  - match goal with |- RInv (fst (run_joins c ?s0 todo cur ec)) =>
+      destruct (run_joins_fields c todo s0 cur ec) as (A & B & _) end. cbn [fst] in *.
+    split; [rewrite B; exact D' | intros _; rewrite A; apply R'; discriminate].
+  - cbn [fst]. split; [exact D' | intros _; first [apply R'; discriminate | apply R'; rewrite P'; discriminate]].
+  - cbn [fst]. split; [exact D' | intros _; first [apply R'; discriminate | apply R'; rewrite P'; discriminate]].
+Qed.
+
+Lemma run_events_rinv c : forall script s,
+  forallb no_exc_ev script = true -> RInv (fst s) -> RInv (fst (run_events c s script)).
+Proof.
+  induction script as [|e r IH]; intros s Sc H; [exact H|].
+  change (run_events c s (e :: r)) with (run_events c (step c s e) r).
+  cbn [forallb] in Sc. apply andb_true_iff in Sc. destruct Sc as [Se Sr].
+  apply IH; auto. rewrite (surjective_pairing s). apply rinv_step; auto.
+Qed.
+
+Lemma drain_reaped c s : s_reaped (fst s) = true -> s_reaped (fst (drain c s)) = true.
+Proof.
+  intros H. unfold drain. destruct (negb (running (fst s))); [exact H|].
+  assert (X : forall t, s_reaped (fst (expire c t)) = s_reaped (fst t)).
+  { intros t. unfold expire. destruct (s_pc (fst t)) as [|[|w rest] [[|]|] ec|o|]; try reflexivity.
+    destruct (run_joins_fields c rest (fst t, add_steps 1 (add_expired (snd t))) None ec) as (A & _).
+    exact A. }
+  rewrite !X. unfold advance. cbn [fst snd].
+  destruct (drain_eof_fields c (fst s)) as (_ & _ & _ & _ & _ & Er).
+  destruct (s_pc (drain_eof c (fst s))).
+  - destruct (s_proc (drain_eof c (fst s))).
+    + destruct (leave_wait_fields c (set_reaped (drain_eof c (fst s)), snd s) false) as (A & _).
+      cbn [fst] in A. rewrite A. reflexivity.
+    + destruct (any_dead (drain_eof c (fst s))).
+      * destruct (leave_wait_fields c (drain_eof c (fst s), snd s) false) as (A & _).
+        cbn [fst] in A. rewrite A, Er. exact H.
+      * cbn [fst]. rewrite Er. exact H.
+  - destruct (run_joins_fields c todo (drain_eof c (fst s), snd s) cur echild) as (A & _).
+    cbn [fst] in A. rewrite A, Er. exact H.
+  - cbn [fst]. rewrite Er. exact H.
+  - cbn [fst]. rewrite Er. exact H.
+Qed.
+
+Definition no_exc (script : list ev) : bool := forallb no_exc_ev script.
+
+(** no worker is made to fail: the child has been reaped when run() is over *)
+Theorem reaped_partial c script :
+  start_raises c = false -> no_exc script = true -> process_ends c script = true ->
+  s_reaped (fst (run_sm c script)) = true.
+Proof.
+  intros S X E. unfold run_sm. apply drain_reaped.
+  set (s0 := advance c (init c)).
+  assert (I0 : Inv c (fst s0)) by (apply init_inv; exact S).
+  assert (R0 : RInv (fst s0)).
+  { unfold s0, advance, init. rewrite S. cbn. destruct (c_in c), (c_pty c); cbn; split; auto; intros H; elim H; reflexivity. }
+  pose proof (run_events_rinv c script s0 X R0) as (_ & R1).
+  apply R1. apply run_events_ends; assumption.
+Qed.
